@@ -300,4 +300,98 @@ func extractC15(f *facts) {
 		}
 	}
 	f.def("c14_method_regexp", "List Nat", leanBytes(regexpLit))
+
+	// ---- attack.go: the format switch passes (src, body, hdr) to either targeter, hdr is
+	// opts.headers.Header, and eager mode is `if !opts.lazy { … ReadAllTargets(tr) … tr = NewStaticTargeter(targets...) }`
+	jsonArgs, httpArgs := []string{}, []string{}
+	hdrSource := ""
+	eagerGuard := false
+	if af := f.parse("attack.go"); af != nil {
+		if fd := funcDecl(af, "", "attack"); fd != nil {
+			exprText := func(e ast.Expr) string {
+				switch x := e.(type) {
+				case *ast.Ident:
+					return x.Name
+				case *ast.SelectorExpr:
+					var parts []string
+					var cur ast.Expr = x
+					for {
+						if se, ok := cur.(*ast.SelectorExpr); ok {
+							parts = append([]string{se.Sel.Name}, parts...)
+							cur = se.X
+							continue
+						}
+						if id, ok := cur.(*ast.Ident); ok {
+							parts = append([]string{id.Name}, parts...)
+						}
+						break
+					}
+					out := ""
+					for i, p := range parts {
+						if i > 0 {
+							out += "."
+						}
+						out += p
+					}
+					return out
+				}
+				return "?"
+			}
+			ast.Inspect(fd, func(n ast.Node) bool {
+				switch x := n.(type) {
+				case *ast.ValueSpec:
+					for i, nm := range x.Names {
+						if nm.Name == "hdr" && i < len(x.Values) {
+							hdrSource = exprText(x.Values[i])
+						}
+					}
+				case *ast.CaseClause:
+					if len(x.List) == 1 && len(x.Body) == 1 {
+						if as, ok := x.Body[0].(*ast.AssignStmt); ok && len(as.Rhs) == 1 {
+							if ce, ok := as.Rhs[0].(*ast.CallExpr); ok {
+								var args []string
+								for _, a := range ce.Args {
+									args = append(args, exprText(a))
+								}
+								key := exprText(x.List[0]) + ">" + exprText(ce.Fun)
+								switch key {
+								case "vegeta.JSONTargetFormat>vegeta.NewJSONTargeter":
+									jsonArgs = args
+								case "vegeta.HTTPTargetFormat>vegeta.NewHTTPTargeter":
+									httpArgs = args
+								}
+							}
+						}
+					}
+				case *ast.IfStmt:
+					if ue, ok := x.Cond.(*ast.UnaryExpr); ok && ue.Op == token.NOT && exprText(ue.X) == "opts.lazy" && x.Else == nil {
+						readAll, static := false, false
+						ast.Inspect(x.Body, func(m ast.Node) bool {
+							if ce, ok := m.(*ast.CallExpr); ok {
+								switch exprText(ce.Fun) {
+								case "vegeta.ReadAllTargets":
+									if len(ce.Args) == 1 && exprText(ce.Args[0]) == "tr" {
+										readAll = true
+									}
+								case "vegeta.NewStaticTargeter":
+									if len(ce.Args) == 1 && ce.Ellipsis != token.NoPos && exprText(ce.Args[0]) == "targets" {
+										static = true
+									}
+								}
+							}
+							return true
+						})
+						if readAll && static {
+							eagerGuard = true
+						}
+					}
+				}
+				return true
+			})
+		}
+	}
+	f.def("c14_attack_json_targeter_args", "List (List Nat)", leanBytesList(jsonArgs))
+	f.def("c14_attack_http_targeter_args", "List (List Nat)", leanBytesList(httpArgs))
+	f.def("c14_attack_hdr_source", "List Nat", leanBytes(hdrSource))
+	f.def("c14_attack_eager_unless_lazy", "Bool", leanBool(eagerGuard))
 }
